@@ -125,7 +125,9 @@ def check_send_helpers(ctx):
         ok = cnt == (1, 1)
         ctx.ob("C05.P1", f.qualname, ok, "the message is sent exactly once" if ok else f"send_message is called {cnt} times", key="sent-once", where=f.where)
         # the built message (not some other) is what is sent
-        sm = next(c for c in calls_in(f.node) if call_name(c) == "self.send_message")
+        sm = next((c for c in calls_in(f.node) if call_name(c) == "self.send_message"), None)
+        if sm is None:
+            continue  # reported above: the message is not sent through send_message
         msg_vars = {t.id for st in rules.func_stmts(f.node) if isinstance(st, ast.Assign) and h in calls_in(st.value) for t in st.targets if isinstance(t, ast.Name)}
         ok = bool(sm.args) and (norm(sm.args[0]) in msg_vars or h in calls_in(sm.args[0]) or (call_name(h) + "(") in rules.expand(f.node, sm.args[0]))
         ctx.ob("C05.P1", f.qualname, ok, "the sent message is the one built from the header" if ok else f"send_message({norm(sm.args[0]) if sm.args else ''}) does not send the built message", key="sends-built", where=f.where)
@@ -495,6 +497,10 @@ def run(ctx):
     report.share(ctx, "C05.P5", check_framing)
     check_dispatcher(ctx, "C05.P5", wakeups=True, consumers=False, reconnect=True)
     report.share(ctx, "C05.P5", check_idle_and_disable)
+    # ... and a frame that arrives in several segments is read only when all its bytes are there (wait predicate, C09.W1)
+    from .c09 import check_bytequeue_wait
+
+    check_bytequeue_wait(ctx, "C05.P5")
 
 
 def shared(ctx, rule, transactions=False):
